@@ -40,7 +40,7 @@ def plan(tier):
                                   "boundscheck-runs", "conflict-monitor-runs"],
             "required_tags": ["just-outside-limits", "log-axis", "auto-limits", "explicit-limits", "mean-layer",
                               "nan-inf-points", "empty-input", "layer-omp", "layer-workqueue", "float32-layer",
-                              "crowded-bin"]}
+                              "crowded-bin", "points-one-ulp-from-limits"]}
 
 
 def cases(ctx):
@@ -303,6 +303,23 @@ def run_case(case, ctx, res):
             res.tag("just-outside-limits")
     else:
         res.tag("auto-limits")
+    if "xmax" in kw and "ymax" in kw and n >= 16 and not logx and not logy and np.asarray(x).dtype.kind == "f":
+        # points on, one ulp below and one ulp above each explicit limit (in the dtype of the data), the other coordinate
+        # well inside the range: such a point belongs to the first/last bin or to none - never to any other bin
+        xd, yd = np.asarray(x).dtype.type, np.asarray(y).dtype.type
+        xmid = xd(0.5 * (kw["xmin"] + kw["xmax"]))
+        ymid = yd(0.5 * (kw["ymin"] + kw["ymax"]))
+        pts = []
+        for lim in (kw["xmin"], kw["xmax"]):
+            for v in (np.nextafter(xd(lim), xd(-np.inf)), xd(lim), np.nextafter(xd(lim), xd(np.inf))):
+                pts.append((v, ymid))
+        for lim in (kw["ymin"], kw["ymax"]):
+            for v in (np.nextafter(yd(lim), yd(-np.inf)), yd(lim), np.nextafter(yd(lim), yd(np.inf))):
+                pts.append((xmid, v))
+        slots = rng.choice(n, size=len(pts), replace=False)
+        for k, (px, py) in zip(slots, pts):
+            x[k], y[k] = px, py
+        res.tag("points-one-ulp-from-limits")
     xa = osy.Array(values=x, unit="cm", name="xx")
     ya = osy.Array(values=y, unit="K", name="yy")
     nl = int(rng.integers(0, 4)) if fi is None else fi % 4
